@@ -372,6 +372,17 @@ func c17Run(c c17Case) error {
 	if !inLang(lines[0]) {
 		return fmt.Errorf("%s: %q is not a password the equivalent library recipe can generate", desc, lines[0])
 	}
+	// membership cannot see a recipe that is too narrow; the entropy of the
+	// recipe can: run the same command line with --entropy added
+	out2, err := runOpgen(append(append([]string{}, args...), "--entropy"))
+	if err != nil {
+		return err
+	}
+	want := fmt.Sprintf("%.2f\n", entropy)
+	if out2.Code != 0 || out2.Stdout != want {
+		return fmt.Errorf("%s: the same command line with --entropy printed %q (exit %d), the equivalent library recipe has %q: the CLI is not generating from that recipe", desc, out2.Stdout, out2.Code, want)
+	}
+	ev.Class("entropy_cross_checked")
 	return nil
 }
 
